@@ -313,7 +313,99 @@ pub fn gen_pair(rng: &mut Rng, small: bool) -> (Lab, Lab, &'static str) {
     }
 }
 
+/// Patterns beyond the reach of the exhaustive oracle (12..=24 nodes): the pattern is an induced subgraph of the target
+/// *by construction*, so the positive answers are known, and every mapping the iterator yields can be validated on its own.
+fn large_by_construction<Ty: EdgeType>(cx: &mut Cx, rng: &mut Rng, directed: bool) -> R {
+    let n1 = rng.urange(12, 24);
+    let dens = *rng.pick(&[30u32, 45, 60]);
+    let mut g = Abs::new(n1, directed);
+    for u in 0..n1 {
+        for v in 0..n1 {
+            if (!directed && v < u) || (u == v && !rng.chance(1, 4)) {
+                continue;
+            }
+            if rng.chance(dens, 100) {
+                g.add(u, v, 0);
+            }
+        }
+    }
+    let b = Lab { g, nl: vec![0; n1] };
+    let drop = rng.below(3).min(n1 - 1);
+    let mut keep: Vec<usize> = (0..n1).collect();
+    rng.shuffle(&mut keep);
+    keep.truncate(n1 - drop);
+    keep.sort_unstable();
+    let mut idx = vec![usize::MAX; n1];
+    for (i, &v) in keep.iter().enumerate() {
+        idx[v] = i;
+    }
+    let mut ga = Abs::new(keep.len(), directed);
+    for &(u, v, w) in &b.g.edges {
+        if idx[u] != usize::MAX && idx[v] != usize::MAX {
+            ga.add(idx[u], idx[v], w);
+        }
+    }
+    let a0 = Lab { g: ga, nl: vec![0; keep.len()] };
+    let p = rng.perm(a0.g.n);
+    let a = a0.relabel(&p);
+    cx.log(|| format!("large pair by construction: g0 = {} (induced subgraph of g1 on {} of its nodes, relabelled); g1 = {}", a.g.describe(), keep.len(), b.g.describe()));
+    cx.count(&format!("large-by-construction:pattern-nodes={}", a.g.n));
+    let (ga, gb) = (build::<Ty>(&a), build::<Ty>(&b));
+    let tag = "/large-by-construction";
+    cx.ensure(algo::is_isomorphic_subgraph(&ga, &gb), &format!("is_isomorphic_subgraph{}", tag), || "false for an induced subgraph of the target".into())?;
+    let same = a.g.n == b.g.n;
+    let got = algo::is_isomorphic(&ga, &gb);
+    cx.ensure(got == same, &format!("is_isomorphic{}", tag), || format!("got {} for a relabelled induced subgraph on {} of {} nodes", got, a.g.n, b.g.n))?;
+    let (m0, m1) = (a.adj(), b.adj());
+    let mut nm = |_: &u8, _: &u8| true;
+    let mut em = |_: &i64, _: &i64| true;
+    let (ra, rb) = (&ga, &gb);
+    match algo::subgraph_isomorphisms_iter(&ra, &rb, &mut nm, &mut em) {
+        None => cx.ensure(false, &format!("subgraph_isomorphisms_iter:none{}", tag), || "None for an induced subgraph of the target".into())?,
+        Some(it) => {
+            // consumed the ordinary way (collect asks the iterator for its size_hint first)
+            let got: Vec<Vec<usize>> = it.take(3).collect();
+            cx.ensure(!got.is_empty(), &format!("subgraph_isomorphisms_iter:empty{}", tag), || "no mapping yielded for an induced subgraph of the target".into())?;
+            for (k, mp) in got.iter().enumerate() {
+                let mut used = vec![false; b.g.n];
+                let mut ok = mp.len() == a.g.n;
+                for &c in mp {
+                    if c >= b.g.n || used[c] {
+                        ok = false;
+                        break;
+                    }
+                    used[c] = true;
+                }
+                if ok {
+                    'o: for i in 0..a.g.n {
+                        for j in 0..a.g.n {
+                            if m0[i][j].is_some() != m1[mp[i]][mp[j]].is_some() {
+                                ok = false;
+                                break 'o;
+                            }
+                        }
+                    }
+                }
+                cx.ensure(ok, &format!("subgraph_isomorphisms_iter:invalid-mapping{}", tag), || format!("mapping #{} {:?} is not an injective map preserving adjacency and non-adjacency", k, mp))?;
+                cx.ensure(!got[..k].contains(mp), &format!("subgraph_isomorphisms_iter:duplicate{}", tag), || format!("mapping {:?} yielded twice", mp))?;
+            }
+        }
+    }
+    Ok(())
+}
+
 pub fn case(cx: &mut Cx, rng: &mut Rng) -> R {
+    if !cx.small && rng.chance(1, if cx.thorough { 10 } else { 25 }) {
+        let directed = rng.coin();
+        cx.note_case(rng.next_u64(), true);
+        return if directed {
+            cx.config = "Graph<Directed>".into();
+            large_by_construction::<petgraph::Directed>(cx, rng, true)
+        } else {
+            cx.config = "Graph<Undirected>".into();
+            large_by_construction::<petgraph::Undirected>(cx, rng, false)
+        };
+    }
     let (a, b, kind) = gen_pair(rng, cx.small);
     cx.log(|| format!("pair kind {}: g0 = {} labels {:?}; g1 = {} labels {:?}", kind, a.g.describe(), a.nl, b.g.describe(), b.nl));
     cx.count(&format!("pair:{}", kind));
